@@ -2,6 +2,7 @@ package props
 
 import (
 	"fmt"
+	"runtime"
 	"strings"
 	"time"
 
@@ -79,7 +80,7 @@ func C12(r *core.Run) {
 	}
 	r.Set("mouse_entries", len(ents))
 	const W, H = 80, 24
-	coords := []int{-5, 0, 1, 2, W - 1, W, W + 1, 9999}
+	coords := []int{-5, 0, 1, 2, W - 1, W, W + 1, 9999, -100000, 1234567}
 	core.Parallel(len(ents), func(ei int) {
 		ti := Pristine(ents[ei])
 		full := ei%6 == 0 || !r.Quick()
@@ -483,6 +484,61 @@ func c12eightbit(r *core.Run) {
 		}
 	}
 	c12live(r)
+	c12pipeline(r)
+}
+
+// c12pipeline: a press, a burst of drag reports and the release arrive in separate reads while
+// the application is not polling (event queue full, later reads waiting in the chunk queue);
+// polling starts when everything has been read; expectation = the parser's one-read result.
+func c12pipeline(r *core.Run) {
+	for _, name := range []string{"xterm-256color", "linux", "tmux-256color", "rxvt-unicode"} {
+		ti := Pristine(name)
+		if ti == nil || ti.Mouse == "" {
+			continue
+		}
+		for round := 0; round < r.Pick(3, 40); round++ {
+			rg := r.Rand("c12pipe", name, round)
+			ls, err := startScreen(ti, 80, 24, nil)
+			if err != nil {
+				r.Inconclusive(err.Error())
+				return
+			}
+			ls.s.EnableMouse()
+			var reads [][]byte
+			x, y := 5+rg.IntN(20), 3+rg.IntN(10)
+			reads = append(reads, []byte(fmt.Sprintf("\x1b[<0;%d;%dM", x, y)))
+			for i := 0; i < 7+rg.IntN(2); i++ { // (at most 11 reads in all: the chunk queue, the main loop and the reader hold 12 even when nothing is decoded)
+				x, y = x+1+rg.IntN(2), y+rg.IntN(2)
+				reads = append(reads, []byte(fmt.Sprintf("\x1b[<32;%d;%dM", x, y)))
+			}
+			reads = append(reads, []byte(fmt.Sprintf("\x1b[<0;%d;%dm", x, y)))
+			var all []byte
+			for _, b := range reads {
+				ls.tty.Feed(b)
+				all = append(all, b...)
+			}
+			ls.tty.Feed([]byte{0x1d})
+			for i := 0; i < 200000 && ls.tty.Pending() > 0; i++ {
+				runtime.Gosched()
+			}
+			var want []NEv
+			if d, err := newDecoder(ti, "UTF-8", 80, 24); err == nil {
+				want, _, _ = d.whole(all)
+			}
+			got, ok := ls.pollUntilRune(0x1d)
+			ls.judgeSentinel(r, ok, "mouse pipeline "+name)
+			ls.fini()
+			if !ok {
+				continue
+			}
+			r.Case(fmt.Sprintf("mousepipe|%s|%d", name, round))
+			r.Count("pipeline_histories", 1)
+			if !evsEq(got, want) {
+				r.Violate("pipeline:drag", fmt.Sprintf("%s: press, %d drag reports and release arriving in %d reads while the application was not polling were delivered as %s, expected %s", name, len(reads)-2, len(reads), short(evsStr(got), 500), short(evsStr(want), 500)), nil)
+				break
+			}
+		}
+	}
 }
 
 // c12live: the reports of a drag on a live screen with the application calling the
